@@ -3,6 +3,7 @@ import Mrpro.Model.Rotation
 import Mrpro.Lemmas.RotationL
 import Mrpro.Lemmas.EulerL
 import Mrpro.Lemmas.MatQuatL
+import Mrpro.Lemmas.RotvecL
 /-! # C12 — Rotation agrees with the reference implementation it reimplements
 
 What can be stated about the conversions without the transcendental functions: with
@@ -77,5 +78,27 @@ theorem matrixToQuat_toMat_real (q : M.Q ℝ) (hq : q.normSq = 1) :
 
 /-- the executable (Float) model used by the correspondence check is this very function at `Float.sqrt` -/
 theorem float_model_is_generic : M.F.matrixToQuat = M.matrixToQuatG Float.sqrt := M.F.matrixToQuat_eq_G
+
+/-! ### rotation vector ↔ quaternion round trips (`from_rotvec`, `as_rotvec`), over ℝ for any square root / sine / cosine / atan2
+satisfying `M.TrigSpec` (instance: `Real.sqrt`, `Real.sin`, `Real.cos`, `arg (w + i s)`, `Real.pi`) -/
+
+/-- `from_rotvec(r.as_rotvec())` is `r`: for every unit quaternion in canonical form (`w ≥ 0`, including rotations by π) -/
+theorem fromRotvec_toRotvec {T : M.TrigOps ℝ} (hT : M.TrigSpec T) (q : M.Q ℝ) (hq : q.normSq = 1) (hw : 0 ≤ q.w) :
+    M.fromRotvecG T (M.toRotvecG T q) = q := M.fromRotvec_toRotvec hT q hq hw
+
+/-- `as_rotvec(from_rotvec(v))` is `v` for every rotation vector shorter than π -/
+theorem toRotvec_fromRotvec {T : M.TrigOps ℝ} (hT : M.TrigSpec T) (hI : M.TrigSpecInv T) (v : M.V3 ℝ)
+    (hv : T.sqrt (v.x0 * v.x0 + v.x1 * v.x1 + v.x2 * v.x2) < T.pi) :
+    M.toRotvecG T (M.fromRotvecG T v) = v := M.toRotvec_fromRotvec hT hI v hv
+
+/-- the instance at the reals -/
+theorem fromRotvec_toRotvec_real (q : M.Q ℝ) (hq : q.normSq = 1) (hw : 0 ≤ q.w) :
+    M.fromRotvecG M.realTrig (M.toRotvecG M.realTrig q) = q := M.fromRotvec_toRotvec_real q hq hw
+theorem toRotvec_fromRotvec_real (v : M.V3 ℝ) (hv : Real.sqrt (v.x0 * v.x0 + v.x1 * v.x1 + v.x2 * v.x2) < Real.pi) :
+    M.toRotvecG M.realTrig (M.fromRotvecG M.realTrig v) = v := M.toRotvec_fromRotvec_real v hv
+
+/-- the executable (Float) conversions used by the correspondence check are these generic functions at the Float operations -/
+theorem float_rotvec_is_generic : M.F.fromRotvec = M.fromRotvecG M.F.floatTrig ∧ M.F.toRotvec = M.toRotvecG M.F.floatTrig :=
+  ⟨M.F.fromRotvec_eq_G, M.F.toRotvec_eq_G⟩
 
 end C12
